@@ -410,7 +410,8 @@ pub fn utils(out: &mut Out, seed: u64, thorough: bool) {
         let label = labels[i % 3];
         let ptype = (0x0600 + rng.below(0xFA00)) as u16;
         let fragid = *rng.pick(&[0u8, 1, 127, 255]);
-        let tl = rng.next() as u16;
+        // total length: any 16-bit value, the smallest ones and the largest in turn
+        let tl = match i % 12 { 1 => (i / 12 % 9) as u16, 5 => 0xFFFF - (i / 12 % 3) as u16, _ => rng.next() as u16 };
         let crc = rng.next() as u32;
         let kind = i % 4;
         let r = cu("utils", AssertUnwindSafe(|| -> (String, Vec<u8>) {
